@@ -2,16 +2,17 @@
 """Re-run every stored behaviour-preserving rewrite (/verif/harmless/<name>/patch.diff) against /repo with the current checks:
 apply, run all quick checks, undo.  No check may alarm.  usage: refac_rerun.py [name-prefix ...]"""
 import json, os, subprocess, sys, time
-V = '/verif'
+V = os.path.dirname(os.path.dirname(os.path.abspath(__file__)))
+R = os.environ.get('VERIF_REPO', '/repo')
 def sh(cmd, cwd=None, timeout=4000):
     p = subprocess.run(cmd, shell=True, cwd=cwd, capture_output=True, text=True, timeout=timeout)
     return p.returncode, (p.stdout + p.stderr)
 names = sorted(os.listdir(os.path.join(V, 'harmless')))
 if sys.argv[1:]:
     names = [n for n in names if any(n.startswith(a) for a in sys.argv[1:])]
-rc, o = sh('git -C /repo status --porcelain')
+rc, o = sh(f'git -C {R} status --porcelain')
 if o.strip():
-    print('/repo is not clean'); sys.exit(2)
+    print(R, 'is not clean'); sys.exit(2)
 ids = [c['property_id'] for c in json.load(open(os.path.join(V, 'MANIFEST.json')))['checks']]
 bad = {}
 for name in names:
@@ -19,7 +20,7 @@ for name in names:
     mp = os.path.join(d, 'meta.json')
     meta = json.load(open(mp)) if os.path.exists(mp) else {'name': name}
     ex = ' '.join(f"--exclude={e}" for e in meta.get('excluded', []))
-    rc, o = sh(f'git -C /repo apply {ex} {d}/patch.diff')
+    rc, o = sh(f'git -C {R} apply {ex} {d}/patch.diff')
     if rc != 0:
         print(name, 'patch does not apply', o[-300:]); continue
     res = {}
@@ -30,8 +31,8 @@ for name in names:
             lines = [l[:200] for l in o.split('\n') if l.startswith('VIOLATION')]
             res[pid] = {'exit': rc, 'violations': lines[:2], 'wall_s': round(time.time() - t, 1)}
     finally:
-        sh('git -C /repo checkout -- .')
-        sh('git -C /repo clean -fdq -- lib_guesser lib_trainer lib_scorer lib_princeling')
+        sh(f'git -C {R} checkout -- .')
+        sh(f'git -C {R} clean -fdq -- lib_guesser lib_trainer lib_scorer lib_princeling')
     alarms = [p for p, r in res.items() if r['exit'] != 0]
     meta['current'] = {'results': res, 'alarms': alarms}
     json.dump(meta, open(mp, 'w'), indent=1)
